@@ -1,8 +1,1888 @@
-//! C06 — not implemented yet.
+//! C06 — the parser builds the tree dictated by FEEL precedence and associativity.
+//!
+//! Implementation under test: `dmntk_feel_parser::parse_expression` / `parse_unary_tests`
+//! (the committed LALR tables of `lalr.rs` driven by `parser.rs`, fed by `lexer.rs`) and, for
+//! the gap family, the lexer alone (`verif::tokenize`).
+//! Model: `Dmn.Ref.{print, parse, parseSurface, needsParens}` (reference precedence-climbing
+//! parser and printers driven by the table regenerated from `feel.y`), `Dmn.Escape`
+//! (the UTF-8 packing of `consume_unicode`) and `Dmn.GapLayout.skipGap` (`read_input`) through
+//! the driver.
+//!
+//! Families
+//!   corpus           fixed witnesses of past disagreements, first in every family
+//!   pairs / triples  every (parent position, child kind) and (…, grandchild kind) of the operator
+//!                    skeleton, rendered by `Ref.print full|minimal`, and the minimal rendering
+//!                    with each needed pair of parentheses removed (pairs completely in both
+//!                    tiers, triples completely in the thorough tier)
+//!   random           random skeleton trees to depth 5 (quick) / 8 (thorough)
+//!   layout           token-preserving layouts of the same renderings (white space of all
+//!                    kinds, `//` and `/* */` comments), in strata: clean / two comments in a
+//!                    row / comment right after a keyword / literal glued to `(`
+//!   gap              white space and 0-3 comments before a token: lexer vs `skipGap`
+//!   escape           every escape form (both digit cases) over boundary code points and a
+//!                    stratified sample; simple escapes; malformed escapes
+//!   extended         if/for/some/every/function/list/context/range/unary tests/named
+//!                    parameters/`in (…)`/generic types: print∘parse round trip on the real
+//!                    parser with the harness' own printer (which is itself compared with
+//!                    `Ref.print` on every skeleton case)
+//!
+//! ImplVsSpec  = parse(print_full t) ≠ t, parse(print_minimal t) ≠ t, a needed pair removed and
+//!               still the same tree, a layout changes the tree, an escape does not denote c.
+//! ImplVsModel = the real parser's tree ≠ `Ref.parseSurface` of the same tokens; the escape
+//!               or gap model disagrees with the lexer; `Ref.parse (Ref.print t) ≠ t`.
+//!
+//! `vharness C06 probe` reads expressions from stdin (prefix `UT:` for unary tests) and prints
+//! what the real parser makes of them (a debugging aid; `\n` in a line stands for a line feed).
 
-use crate::report::Report;
+use crate::model::Model;
+use crate::report::{Kind, Report};
+use crate::rng::Rng;
+use crate::sexp::Sexp;
+use crate::util::guarded;
 use crate::Cfg;
+use dmntk_feel::values::Value;
+use dmntk_feel::{AstNode, FeelType, Name, Scope};
+use serde_json::json;
 
-pub fn run(_cfg: &Cfg) -> Report {
-  Report::new("C06", "not implemented")
+// ------------------------------------------------------------------------------------------
+// signatures of the defects of the pinned tree (known_findings.json matches on them)
+// ------------------------------------------------------------------------------------------
+
+const SIG_BETWEEN: &str = "round trip fails: `and` or `between` inside the middle operand of between";
+const SIG_PATH3: &str = "round trip fails: grouping parenthesis or list bracket followed by a path of three names";
+const SIG_BUILTIN: &str = "round trip fails: built-in type name followed by a word or name symbol";
+const SIG_SURROGATE: &str = "surrogate pair escape does not denote its code point";
+const SIG_TWO_COMMENTS: &str = "layout changes the tree: two comments in a row between tokens";
+const SIG_KEYWORD_COMMENT: &str = "layout changes the tree: comment directly after a keyword";
+const SIG_LITERAL_PAREN: &str = "layout changes the tree: true/false/null directly followed by (";
+
+// ------------------------------------------------------------------------------------------
+// alphabet
+// ------------------------------------------------------------------------------------------
+
+/// Single-word names, all bound in the parsing scope (token boundaries of unbound names
+/// depend on the scope: that dimension is C10).
+pub const NAMES: [&str; 10] = ["a", "b", "c", "d", "k", "m", "p", "q", "tA", "tB"];
+/// Local variable names of for/some/every/function in the extended family (not bound outside).
+const LOCALS: [&str; 3] = ["x", "y", "z"];
+const LITS: [&str; 6] = ["true", "false", "null", "\"s\"", "\"x y\"", "@\"2021-01-01\""];
+
+pub fn scope() -> Scope {
+  let s = Scope::default();
+  for n in NAMES {
+    s.set_entry(&Name::from(n), Value::Null(None));
+  }
+  s
+}
+
+fn lit_ast(k: usize) -> AstNode {
+  match k {
+    0 => AstNode::Boolean(true),
+    1 => AstNode::Boolean(false),
+    2 => AstNode::Null,
+    3 => AstNode::String("s".into()),
+    4 => AstNode::String("x y".into()),
+    _ => AstNode::At("2021-01-01".into()),
+  }
+}
+
+fn name_ast(n: usize) -> AstNode {
+  AstNode::Name(Name::from(NAMES[n]))
+}
+
+#[derive(Clone, Copy, Debug, PartialEq, Eq)]
+pub enum Op {
+  Or,
+  And,
+  Eq,
+  Nq,
+  Lt,
+  Le,
+  Gt,
+  Ge,
+  In,
+  Add,
+  Sub,
+  Mul,
+  Div,
+  Exp,
+}
+
+pub const OPS: [Op; 14] = [Op::Or, Op::And, Op::Eq, Op::Nq, Op::Lt, Op::Le, Op::Gt, Op::Ge, Op::In, Op::Add, Op::Sub, Op::Mul, Op::Div, Op::Exp];
+
+impl Op {
+  fn name(self) -> &'static str {
+    match self {
+      Op::Or => "or",
+      Op::And => "and",
+      Op::Eq => "eq",
+      Op::Nq => "nq",
+      Op::Lt => "lt",
+      Op::Le => "le",
+      Op::Gt => "gt",
+      Op::Ge => "ge",
+      Op::In => "in",
+      Op::Add => "add",
+      Op::Sub => "sub",
+      Op::Mul => "mul",
+      Op::Div => "div",
+      Op::Exp => "exp",
+    }
+  }
+  fn of_name(s: &str) -> Option<Op> {
+    OPS.iter().copied().find(|o| o.name() == s)
+  }
+}
+
+/// The operator skeleton (mirrors `Dmn.Ref.Tree`).
+#[derive(Clone, Debug, PartialEq)]
+pub enum T {
+  Name(usize),
+  Num(usize),
+  Lit(usize),
+  Bin(Op, Box<T>, Box<T>),
+  Neg(Box<T>),
+  Between(Box<T>, Box<T>, Box<T>),
+  Inst(Box<T>, usize, Vec<usize>),
+  Path(Box<T>, usize),
+  Filter(Box<T>, Box<T>),
+  Call(Box<T>, Vec<T>),
+}
+
+impl T {
+  pub fn sexp(&self) -> Sexp {
+    match self {
+      T::Name(n) => Sexp::list(vec![Sexp::atom("a"), Sexp::atom("n"), Sexp::int(*n)]),
+      T::Num(n) => Sexp::list(vec![Sexp::atom("a"), Sexp::atom("u"), Sexp::int(*n)]),
+      T::Lit(n) => Sexp::list(vec![Sexp::atom("a"), Sexp::atom("l"), Sexp::int(*n)]),
+      T::Bin(o, l, r) => Sexp::tagged("bin", vec![Sexp::atom(o.name()), l.sexp(), r.sexp()]),
+      T::Neg(e) => Sexp::tagged("neg", vec![e.sexp()]),
+      T::Between(e, lo, hi) => Sexp::tagged("between", vec![e.sexp(), lo.sexp(), hi.sexp()]),
+      T::Inst(e, q, qs) => {
+        let mut v = vec![e.sexp(), Sexp::int(*q)];
+        v.extend(qs.iter().map(|n| Sexp::int(*n)));
+        Sexp::tagged("inst", v)
+      }
+      T::Path(e, n) => Sexp::tagged("path", vec![e.sexp(), Sexp::int(*n)]),
+      T::Filter(e, i) => Sexp::tagged("filter", vec![e.sexp(), i.sexp()]),
+      T::Call(f, args) => {
+        let mut v = vec![f.sexp()];
+        v.extend(args.iter().map(|a| a.sexp()));
+        Sexp::tagged("call", v)
+      }
+    }
+  }
+  pub fn of_sexp(s: &Sexp) -> Option<T> {
+    let l = s.as_list()?;
+    let tag = l.first()?.as_atom()?;
+    let nat = |x: &Sexp| x.as_atom().and_then(|a| a.parse::<usize>().ok());
+    Some(match (tag, l.len()) {
+      ("a", 3) => {
+        let n = nat(&l[2])?;
+        match l[1].as_atom()? {
+          "n" => T::Name(n),
+          "u" => T::Num(n),
+          "l" => T::Lit(n),
+          _ => return None,
+        }
+      }
+      ("bin", 4) => T::Bin(Op::of_name(l[1].as_atom()?)?, Box::new(T::of_sexp(&l[2])?), Box::new(T::of_sexp(&l[3])?)),
+      ("neg", 2) => T::Neg(Box::new(T::of_sexp(&l[1])?)),
+      ("between", 4) => T::Between(Box::new(T::of_sexp(&l[1])?), Box::new(T::of_sexp(&l[2])?), Box::new(T::of_sexp(&l[3])?)),
+      ("inst", n) if n >= 3 => {
+        let mut qs = vec![];
+        for x in &l[3..] {
+          qs.push(nat(x)?);
+        }
+        T::Inst(Box::new(T::of_sexp(&l[1])?), nat(&l[2])?, qs)
+      }
+      ("path", 3) => T::Path(Box::new(T::of_sexp(&l[1])?), nat(&l[2])?),
+      ("filter", 3) => T::Filter(Box::new(T::of_sexp(&l[1])?), Box::new(T::of_sexp(&l[2])?)),
+      ("call", n) if n >= 2 => {
+        let mut args = vec![];
+        for x in &l[2..] {
+          args.push(T::of_sexp(x)?);
+        }
+        T::Call(Box::new(T::of_sexp(&l[1])?), args)
+      }
+      _ => return None,
+    })
+  }
+  /// The `AstNode` the reduce actions of `parser.rs` build for this tree.
+  pub fn ast(&self) -> AstNode {
+    let b = |t: &T| Box::new(t.ast());
+    match self {
+      T::Name(n) => name_ast(*n),
+      T::Num(n) => AstNode::Numeric(n.to_string(), String::new()),
+      T::Lit(k) => lit_ast(*k),
+      T::Bin(o, l, r) => {
+        let (l, r) = (b(l), b(r));
+        match o {
+          Op::Or => AstNode::Or(l, r),
+          Op::And => AstNode::And(l, r),
+          Op::Eq => AstNode::Eq(l, r),
+          Op::Nq => AstNode::Nq(l, r),
+          Op::Lt => AstNode::Lt(l, r),
+          Op::Le => AstNode::Le(l, r),
+          Op::Gt => AstNode::Gt(l, r),
+          Op::Ge => AstNode::Ge(l, r),
+          Op::In => AstNode::In(l, r),
+          Op::Add => AstNode::Add(l, r),
+          Op::Sub => AstNode::Sub(l, r),
+          Op::Mul => AstNode::Mul(l, r),
+          Op::Div => AstNode::Div(l, r),
+          Op::Exp => AstNode::Exp(l, r),
+        }
+      }
+      T::Neg(e) => AstNode::Neg(b(e)),
+      T::Between(e, lo, hi) => AstNode::Between(b(e), b(lo), b(hi)),
+      T::Inst(e, q, qs) => {
+        let mut segs = vec![AstNode::QualifiedNameSegment(Name::from(NAMES[*q]))];
+        segs.extend(qs.iter().map(|n| AstNode::QualifiedNameSegment(Name::from(NAMES[*n]))));
+        AstNode::InstanceOf(b(e), Box::new(AstNode::QualifiedName(segs)))
+      }
+      T::Path(e, n) => AstNode::Path(b(e), Box::new(name_ast(*n))),
+      T::Filter(e, i) => AstNode::Filter(b(e), b(i)),
+      T::Call(f, args) => AstNode::FunctionInvocation(b(f), Box::new(AstNode::PositionalParameters(args.iter().map(|a| a.ast()).collect()))),
+    }
+  }
+  fn depth(&self) -> usize {
+    match self {
+      T::Name(_) | T::Num(_) | T::Lit(_) => 0,
+      T::Bin(_, l, r) => 1 + l.depth().max(r.depth()),
+      T::Neg(e) | T::Inst(e, _, _) | T::Path(e, _) => 1 + e.depth(),
+      T::Between(e, lo, hi) => 1 + e.depth().max(lo.depth()).max(hi.depth()),
+      T::Filter(e, i) => 1 + e.depth().max(i.depth()),
+      T::Call(f, args) => 1 + args.iter().map(|a| a.depth()).fold(f.depth(), usize::max),
+    }
+  }
+  /// Does the rendering of this tree contain `and` or `between` (in any mode, at any depth)?
+  fn has_and_or_between(&self) -> bool {
+    match self {
+      T::Name(_) | T::Num(_) | T::Lit(_) => false,
+      T::Bin(o, l, r) => *o == Op::And || l.has_and_or_between() || r.has_and_or_between(),
+      T::Neg(e) | T::Inst(e, _, _) | T::Path(e, _) => e.has_and_or_between(),
+      T::Between(..) => true,
+      T::Filter(e, i) => e.has_and_or_between() || i.has_and_or_between(),
+      T::Call(f, args) => f.has_and_or_between() || args.iter().any(|a| a.has_and_or_between()),
+    }
+  }
+  /// Some `between` below has `and`/`between` in its middle operand: the lexer's single
+  /// `between` flag (lexer.rs:276-284) then hands the wrong `and` to the grammar.
+  fn between_unsafe(&self) -> bool {
+    match self {
+      T::Name(_) | T::Num(_) | T::Lit(_) => false,
+      T::Bin(_, l, r) => l.between_unsafe() || r.between_unsafe(),
+      T::Neg(e) | T::Inst(e, _, _) | T::Path(e, _) => e.between_unsafe(),
+      T::Between(e, lo, hi) => lo.has_and_or_between() || e.between_unsafe() || lo.between_unsafe() || hi.between_unsafe(),
+      T::Filter(e, i) => e.between_unsafe() || i.between_unsafe(),
+      T::Call(f, args) => f.between_unsafe() || args.iter().any(|a| a.between_unsafe()),
+    }
+  }
+  fn kind(&self) -> String {
+    match self {
+      T::Name(_) | T::Num(_) | T::Lit(_) => "atom".into(),
+      T::Bin(o, _, _) => o.name().into(),
+      T::Neg(_) => "neg".into(),
+      T::Between(..) => "between".into(),
+      T::Inst(..) => "instance-of".into(),
+      T::Path(..) => "path".into(),
+      T::Filter(..) => "filter".into(),
+      T::Call(..) => "call".into(),
+    }
+  }
+}
+
+// ------------------------------------------------------------------------------------------
+// tokens and their text
+// ------------------------------------------------------------------------------------------
+
+#[derive(Clone, Debug, PartialEq)]
+struct Tk {
+  /// the S-expression of the token as the driver wrote it
+  sx: Sexp,
+  text: String,
+  /// a keyword spelled with letters (needs white space after it, lexer.rs:212-308)
+  keyword: bool,
+  /// ends an operand: a following `(` is an invocation
+  operand_end: bool,
+  /// letters/digits at its edges (needs a separator next to another such token)
+  wordy: bool,
+}
+
+fn tk_of(s: &Sexp) -> Option<Tk> {
+  let mk = |text: &str, keyword: bool, operand_end: bool, wordy: bool| Tk { sx: s.clone(), text: text.to_string(), keyword, operand_end, wordy };
+  if let Some(l) = s.as_list() {
+    let n: usize = l.get(1)?.as_atom()?.parse().ok()?;
+    return Some(match l.first()?.as_atom()? {
+      "n" => mk(NAMES.get(n)?, false, true, true),
+      "u" => mk(&n.to_string(), false, true, true),
+      "l" => mk(LITS.get(n)?, false, true, true),
+      _ => return None,
+    });
+  }
+  Some(match s.as_atom()? {
+    "or" => mk("or", true, false, true),
+    "and" | "band" => mk("and", true, false, true),
+    "eq" => mk("=", false, false, false),
+    "nq" => mk("!=", false, false, false),
+    "lt" => mk("<", false, false, false),
+    "le" => mk("<=", false, false, false),
+    "gt" => mk(">", false, false, false),
+    "ge" => mk(">=", false, false, false),
+    "between" => mk("between", true, false, true),
+    "in" => mk("in", true, false, true),
+    "plus" => mk("+", false, false, false),
+    "minus" => mk("-", false, false, false),
+    "mul" => mk("*", false, false, false),
+    "div" => mk("/", false, false, false),
+    "exp" => mk("**", false, false, false),
+    "instance" => mk("instance", true, false, true),
+    "of" => mk("of", true, false, true),
+    "lp" => mk("(", false, false, false),
+    "rp" => mk(")", false, true, false),
+    "lb" => mk("[", false, false, false),
+    "rb" => mk("]", false, true, false),
+    "dot" => mk(".", false, false, false),
+    "comma" => mk(",", false, false, false),
+    _ => return None,
+  })
+}
+
+fn toks_of(s: &Sexp) -> Option<Vec<Tk>> {
+  let l = s.as_list()?;
+  if l.first()?.as_atom()? != "toks" {
+    return None;
+  }
+  l[1..].iter().map(tk_of).collect()
+}
+
+fn toks_sexp(ts: &[Tk]) -> Sexp {
+  Sexp::tagged("toks", ts.iter().map(|t| t.sx.clone()).collect())
+}
+
+/// One space between any two tokens.
+fn render_plain(ts: &[Tk]) -> String {
+  ts.iter().map(|t| t.text.as_str()).collect::<Vec<_>>().join(" ")
+}
+
+/// The grouping pairs of a token list: `(` not preceded by an operand end, with its partner.
+fn grouping_pairs(ts: &[Tk]) -> Vec<(usize, usize)> {
+  let mut stack: Vec<(usize, bool)> = vec![];
+  let mut out = vec![];
+  for (i, t) in ts.iter().enumerate() {
+    if t.text == "(" {
+      let call = i > 0 && ts[i - 1].operand_end;
+      stack.push((i, !call));
+    } else if t.text == ")" {
+      if let Some((j, grouping)) = stack.pop() {
+        if grouping {
+          out.push((j, i));
+        }
+      }
+    }
+  }
+  out
+}
+
+/// `( a . b . c`: a grouping parenthesis followed by a path of three names — the generated
+/// tables commit to the qualified name of an interval there (see `Dmn.Ref.pathQuirk`).
+fn path_quirk(ts: &[Tk]) -> bool {
+  let is_name = |t: &Tk| matches!(t.sx.as_list().and_then(|l| l.first()).and_then(|a| a.as_atom()), Some("n"));
+  (0..ts.len()).any(|i| {
+    ts[i].text == "("
+      && !(i > 0 && ts[i - 1].operand_end)
+      && i + 4 < ts.len()
+      && is_name(&ts[i + 1])
+      && ts[i + 2].text == "."
+      && is_name(&ts[i + 3])
+      && ts[i + 4].text == "."
+  })
+}
+
+/// Splits a text of the harness printer (tokens separated by blanks, strings quoted) into
+/// token texts; punctuation glued to words is split off.
+fn text_tokens(text: &str) -> Vec<String> {
+  let cs: Vec<char> = text.chars().collect();
+  let mut out = vec![];
+  let mut i = 0;
+  while i < cs.len() {
+    let c = cs[i];
+    if c.is_whitespace() {
+      i += 1;
+    } else if c == '"' {
+      let mut j = i + 1;
+      while j < cs.len() && cs[j] != '"' {
+        j += 1;
+      }
+      out.push(cs[i..(j + 1).min(cs.len())].iter().collect());
+      i = j + 1;
+    } else if c.is_alphanumeric() || c == '_' {
+      let mut j = i;
+      while j < cs.len() && (cs[j].is_alphanumeric() || cs[j] == '_') {
+        j += 1;
+      }
+      out.push(cs[i..j].iter().collect());
+      i = j;
+    } else {
+      let two: String = cs[i..(i + 2).min(cs.len())].iter().collect();
+      if ["**", "!=", "<=", ">=", "..", "->"].contains(&two.as_str()) {
+        out.push(two);
+        i += 2;
+      } else {
+        out.push(c.to_string());
+        i += 1;
+      }
+    }
+  }
+  out
+}
+
+const KEYWORDS: [&str; 22] = [
+  "and", "or", "between", "in", "instance", "of", "if", "then", "else", "for", "return", "some", "every", "satisfies", "function", "external", "not", "list", "range", "context", "true", "false",
+];
+
+fn is_word(t: &str) -> bool {
+  t.chars().next().map(|c| c.is_alphabetic() || c == '_').unwrap_or(false)
+}
+
+/// The same on a text of the harness printer, which marks the grouping parentheses and list
+/// brackets it writes with U+0001 (removed before the text is parsed).
+fn text_path_quirk(ts: &[String]) -> bool {
+  let name = |t: &String| is_word(t) && !KEYWORDS.contains(&t.as_str()) && t != "null";
+  (0..ts.len()).any(|i| ts[i] == "\u{1}" && i + 6 < ts.len() && name(&ts[i + 2]) && ts[i + 3] == "." && name(&ts[i + 4]) && ts[i + 5] == "." && ts[i + 6] != ".")
+}
+
+/// A built-in type name followed by a word or one of the name symbols `. / - ' + *`: the lexer
+/// reads on and returns one long name (lexer.rs:550-705: the built-in type names are tried on
+/// the longest candidate only).
+fn text_builtin_tail(ts: &[String]) -> bool {
+  (0..ts.len()).any(|i| (ts[i] == "number" || ts[i] == "string") && i + 1 < ts.len() && (is_word(&ts[i + 1]) || ts[i + 1].chars().next().map(|c| c.is_ascii_digit()).unwrap_or(false) || [".", "/", "-", "'", "+", "*", "**", ".."].contains(&ts[i + 1].as_str())))
+}
+
+#[derive(Clone, Copy, PartialEq, Debug)]
+enum LayoutClass {
+  /// white space and at most one comment per gap, white space right after every keyword
+  Clean,
+  /// some gap holds two comments in a row
+  DoubleComment,
+  /// some keyword is directly followed by a comment
+  KeywordComment,
+  /// `true`, `false` or `null` directly followed by `(`
+  LiteralParen,
+}
+
+/// A token-preserving layout: what stands between the tokens (and before the first / after
+/// the last) is drawn from spaces, tabs, line breaks, other FEEL white space and comments.
+fn pick_str(rng: &mut Rng, xs: &[&'static str]) -> &'static str {
+  xs[rng.below(xs.len() as u64) as usize]
+}
+
+fn render_layout(ts: &[Tk], rng: &mut Rng, class: LayoutClass) -> String {
+  const WS: [&str; 8] = [" ", "  ", "\n", "\t", "\r\n", " \n ", "\u{00A0}", "\u{2003}"];
+  const COMMENTS: [&str; 5] = ["/* c */", "/**/", "/* a + b and ( */", "// x\n", "// 1 + (\n"];
+  let mut out = String::new();
+  let special_at = if ts.len() > 1 { rng.below(ts.len() as u64 - 1) as usize } else { 0 };
+  let kw_positions: Vec<usize> = ts.iter().enumerate().filter(|(i, t)| t.keyword && *i + 1 < ts.len()).map(|(i, _)| i).collect();
+  let kw_special = if kw_positions.is_empty() { None } else { Some(*rng.pick(&kw_positions)) };
+  // leading
+  if rng.chance(1, 3) {
+    out.push_str(pick_str(rng, &WS));
+    if rng.chance(1, 2) {
+      out.push_str(pick_str(rng, &COMMENTS));
+      out.push_str(pick_str(rng, &WS));
+    }
+  }
+  for (i, t) in ts.iter().enumerate() {
+    out.push_str(&t.text);
+    if i + 1 == ts.len() {
+      break;
+    }
+    let next = &ts[i + 1];
+    let mut gap = String::new();
+    if class == LayoutClass::KeywordComment && kw_special == Some(i) {
+      gap.push_str(pick_str(rng, &COMMENTS[..3]));
+      gap.push_str(pick_str(rng, &WS));
+    } else if class == LayoutClass::DoubleComment && special_at == i {
+      gap.push_str(pick_str(rng, &WS));
+      gap.push_str(pick_str(rng, &COMMENTS));
+      gap.push_str(pick_str(rng, &WS));
+      gap.push_str(pick_str(rng, &COMMENTS));
+      gap.push_str(pick_str(rng, &WS));
+    } else {
+      let word_literal = t.text == "true" || t.text == "false" || t.text == "null";
+      if class == LayoutClass::LiteralParen && word_literal && next.text == "(" {
+        out.push_str(&gap);
+        continue;
+      }
+      let must = t.keyword || (t.wordy && next.wordy) || (t.text == "/" && (next.text == "/" || next.text == "*")) || (word_literal && next.text == "(");
+      // `1 .` + name: keep numbers and dots apart
+      let must = must || (t.text == "." || next.text == ".") && (t.wordy || next.wordy);
+      let k = rng.below(6);
+      if must || k > 0 {
+        gap.push_str(pick_str(rng, &WS));
+      }
+      if k >= 4 {
+        gap.push_str(pick_str(rng, &COMMENTS));
+        if rng.chance(2, 3) {
+          gap.push_str(pick_str(rng, &WS));
+        }
+      }
+    }
+    out.push_str(&gap);
+  }
+  if rng.chance(1, 3) {
+    out.push_str(pick_str(rng, &WS));
+    if rng.chance(1, 2) {
+      out.push_str(pick_str(rng, &COMMENTS));
+    }
+  }
+  out
+}
+
+// ------------------------------------------------------------------------------------------
+// running the implementation
+// ------------------------------------------------------------------------------------------
+
+fn run_impl(text: &str) -> Result<AstNode, String> {
+  let s = scope();
+  match guarded(|| dmntk_feel_parser::parse_expression(&s, text, false)) {
+    Ok(Ok(n)) => Ok(n),
+    Ok(Err(e)) => Err(format!("error: {}", first_line(&e.to_string()))),
+    Err(p) => Err(format!("panic: {}", first_line(&p))),
+  }
+}
+
+fn run_impl_ut(text: &str) -> Result<AstNode, String> {
+  let s = scope();
+  match guarded(|| dmntk_feel_parser::parse_unary_tests(&s, text, false)) {
+    Ok(Ok(n)) => Ok(n),
+    Ok(Err(e)) => Err(format!("error: {}", first_line(&e.to_string()))),
+    Err(p) => Err(format!("panic: {}", first_line(&p))),
+  }
+}
+
+fn first_line(s: &str) -> String {
+  let l = s.lines().next().unwrap_or("");
+  l.chars().take(120).collect()
+}
+
+fn show(r: &Result<AstNode, String>) -> String {
+  match r {
+    Ok(n) => short(&format!("{:?}", n)),
+    Err(e) => e.clone(),
+  }
+}
+
+fn short(s: &str) -> String {
+  let s = s.replace("Name(Name(\"", "`").replace("\"))", "`");
+  if s.len() > 600 {
+    format!("{}…", s.chars().take(600).collect::<String>())
+  } else {
+    s
+  }
+}
+
+/// `(ok <tree>)` / `(fail)` of the driver → the `AstNode` it stands for.
+fn model_result(s: &Sexp) -> Option<Option<AstNode>> {
+  let l = s.as_list()?;
+  match l.first()?.as_atom()? {
+    "ok" => Some(Some(T::of_sexp(l.get(1)?)?.ast())),
+    "fail" => Some(None),
+    _ => None,
+  }
+}
+
+fn same(impl_: &Result<AstNode, String>, model: &Option<AstNode>) -> bool {
+  match (impl_, model) {
+    (Ok(a), Some(b)) => a == b,
+    (Err(e), None) => !e.starts_with("panic"),
+    _ => false,
+  }
+}
+
+fn show_model(m: &Option<AstNode>) -> String {
+  match m {
+    Some(n) => short(&format!("{:?}", n)),
+    None => "no parse".into(),
+  }
+}
+
+// ------------------------------------------------------------------------------------------
+// generators of skeleton trees
+// ------------------------------------------------------------------------------------------
+
+/// A node kind with its operand positions; `build(children)` makes the node.
+#[derive(Clone, Copy, Debug, PartialEq)]
+enum Kind0 {
+  Bin(Op),
+  Neg,
+  Between,
+  Inst,
+  InstQ,
+  Path,
+  Filter,
+  Call1,
+  Call2,
+  Call0,
+}
+
+fn kinds() -> Vec<Kind0> {
+  let mut v: Vec<Kind0> = OPS.iter().map(|o| Kind0::Bin(*o)).collect();
+  v.extend([Kind0::Neg, Kind0::Between, Kind0::Inst, Kind0::InstQ, Kind0::Path, Kind0::Filter, Kind0::Call0, Kind0::Call1, Kind0::Call2]);
+  v
+}
+
+fn arity(k: Kind0) -> usize {
+  match k {
+    Kind0::Bin(_) | Kind0::Filter | Kind0::Call1 => 2,
+    Kind0::Neg | Kind0::Inst | Kind0::InstQ | Kind0::Path | Kind0::Call0 => 1,
+    Kind0::Between | Kind0::Call2 => 3,
+  }
+}
+
+fn build(k: Kind0, mut cs: Vec<T>) -> T {
+  let mut next = || Box::new(cs.remove(0));
+  match k {
+    Kind0::Bin(o) => {
+      let l = next();
+      T::Bin(o, l, next())
+    }
+    Kind0::Neg => T::Neg(next()),
+    Kind0::Between => {
+      let e = next();
+      let lo = next();
+      T::Between(e, lo, next())
+    }
+    Kind0::Inst => T::Inst(next(), 8, vec![]),
+    Kind0::InstQ => T::Inst(next(), 8, vec![6]),
+    Kind0::Path => T::Path(next(), 7),
+    Kind0::Filter => {
+      let e = next();
+      T::Filter(e, next())
+    }
+    Kind0::Call0 => T::Call(next(), vec![]),
+    Kind0::Call1 => {
+      let f = next();
+      T::Call(f, vec![*next()])
+    }
+    Kind0::Call2 => {
+      let f = next();
+      let a = next();
+      T::Call(f, vec![*a, *next()])
+    }
+  }
+}
+
+/// Leaves in a fixed rotation so that every operand is recognisable in a report.
+struct Leaves(usize);
+impl Leaves {
+  fn next(&mut self) -> T {
+    self.0 += 1;
+    match self.0 % 7 {
+      0 => T::Num(self.0 % 10),
+      3 => T::Lit(self.0 % 6),
+      _ => T::Name(self.0 % 6),
+    }
+  }
+}
+
+fn atoms_node(k: Kind0, lv: &mut Leaves) -> T {
+  let cs = (0..arity(k)).map(|_| lv.next()).collect();
+  build(k, cs)
+}
+
+/// Every (parent, position, child kind): the child has leaf operands.
+fn all_pairs() -> Vec<T> {
+  let mut out = vec![];
+  for p in kinds() {
+    for pos in 0..arity(p) {
+      for c in kinds() {
+        let mut lv = Leaves(0);
+        let cs = (0..arity(p)).map(|i| if i == pos { atoms_node(c, &mut lv) } else { lv.next() }).collect();
+        out.push(build(p, cs));
+      }
+    }
+  }
+  out
+}
+
+/// Every (parent, position, child, position, grandchild kind), and every parent with two
+/// compound children.
+fn all_triples(kinds_c: &[Kind0]) -> Vec<T> {
+  let mut out = vec![];
+  for p in kinds() {
+    for pos in 0..arity(p) {
+      for c in kinds_c {
+        for pos2 in 0..arity(*c) {
+          for g in kinds_c {
+            let mut lv = Leaves(0);
+            let cs = (0..arity(p))
+              .map(|i| {
+                if i == pos {
+                  let gs = (0..arity(*c)).map(|j| if j == pos2 { atoms_node(*g, &mut lv) } else { lv.next() }).collect();
+                  build(*c, gs)
+                } else {
+                  lv.next()
+                }
+              })
+              .collect();
+            out.push(build(p, cs));
+          }
+        }
+      }
+    }
+    if arity(p) >= 2 {
+      for c1 in kinds_c {
+        for c2 in kinds_c {
+          let mut lv = Leaves(0);
+          let n = arity(p);
+          let cs = (0..n).map(|i| if i == 0 { atoms_node(*c1, &mut lv) } else if i == n - 1 { atoms_node(*c2, &mut lv) } else { lv.next() }).collect();
+          out.push(build(p, cs));
+        }
+      }
+    }
+  }
+  out
+}
+
+fn random_tree(rng: &mut Rng, depth: u32) -> T {
+  if depth == 0 || rng.chance(1, 5) {
+    return match rng.below(8) {
+      0 => T::Num(rng.below(10) as usize),
+      1 => T::Lit(rng.below(6) as usize),
+      _ => T::Name(rng.below(6) as usize),
+    };
+  }
+  let ks = kinds();
+  // binary operators make up 14 of the 23 kinds; give the others the same weight together
+  let k = if rng.chance(1, 2) { ks[rng.below(14) as usize] } else { ks[14 + rng.below(ks.len() as u64 - 14) as usize] };
+  let k = match k {
+    Kind0::InstQ if rng.chance(1, 2) => Kind0::Inst,
+    k => k,
+  };
+  let cs = (0..arity(k)).map(|_| random_tree(rng, depth - 1)).collect();
+  let t = build(k, cs);
+  match t {
+    T::Inst(e, _, _) => {
+      let n = rng.below(3) as usize;
+      T::Inst(e, 8 + rng.below(2) as usize, (0..n).map(|_| rng.below(8) as usize).collect())
+    }
+    T::Path(e, _) => T::Path(e, rng.below(8) as usize),
+    t => t,
+  }
+}
+
+// ------------------------------------------------------------------------------------------
+// the extended language: printer over AstNode (harness side)
+// ------------------------------------------------------------------------------------------
+
+/// Levels as the driver reports them from `Gen/Prec.lean` (so that this printer follows the
+/// same table).
+#[derive(Clone, Debug, Default)]
+struct Levels {
+  lvl: std::collections::HashMap<String, (u32, u32, bool)>,
+  neg: u32,
+  hi: u32,
+  between: u32,
+  instance: u32,
+  dot: u32,
+  paren: u32,
+  brack: u32,
+}
+
+fn levels_of(ans: &str) -> Option<Levels> {
+  let s = Sexp::parse(ans)?;
+  let l = s.as_list()?;
+  let mut lv = Levels::default();
+  for e in &l[1..] {
+    let e = e.as_list()?;
+    let name = e[0].as_atom()?;
+    let n: u32 = e[1].as_atom()?.parse().ok()?;
+    match (name, e.len()) {
+      (_, 4) => {
+        lv.lvl.insert(name.to_string(), (n, e[2].as_atom()?.parse().ok()?, e[3].as_atom()? == "true"));
+      }
+      ("neg", _) => lv.neg = n,
+      ("hi", _) => lv.hi = n,
+      ("between", _) => lv.between = n,
+      ("instance", _) => lv.instance = n,
+      ("dot", _) => lv.dot = n,
+      ("paren", _) => lv.paren = n,
+      ("brack", _) => lv.brack = n,
+      _ => {}
+    }
+  }
+  Some(lv)
+}
+
+/// A token that can follow an operand, as far as precedence is concerned.
+#[derive(Clone, Copy, PartialEq, Debug)]
+enum Follow {
+  Level(u32),
+  Dot(u32),
+}
+
+impl Follow {
+  fn level(self) -> u32 {
+    match self {
+      Follow::Level(l) | Follow::Dot(l) => l,
+    }
+  }
+}
+
+struct Printer<'a> {
+  lv: &'a Levels,
+  full: bool,
+}
+
+fn bin_parts(n: &AstNode) -> Option<(&'static str, &'static str, &AstNode, &AstNode)> {
+  Some(match n {
+    AstNode::Or(l, r) => ("or", "or", l, r),
+    AstNode::And(l, r) => ("and", "and", l, r),
+    AstNode::Eq(l, r) => ("eq", "=", l, r),
+    AstNode::Nq(l, r) => ("nq", "!=", l, r),
+    AstNode::Lt(l, r) => ("lt", "<", l, r),
+    AstNode::Le(l, r) => ("le", "<=", l, r),
+    AstNode::Gt(l, r) => ("gt", ">", l, r),
+    AstNode::Ge(l, r) => ("ge", ">=", l, r),
+    AstNode::In(l, r) if !matches!(**r, AstNode::ExpressionList(_)) => ("in", "in", l, r),
+    AstNode::Add(l, r) => ("add", "+", l, r),
+    AstNode::Sub(l, r) => ("sub", "-", l, r),
+    AstNode::Mul(l, r) => ("mul", "*", l, r),
+    AstNode::Div(l, r) => ("div", "/", l, r),
+    AstNode::Exp(l, r) => ("exp", "**", l, r),
+    _ => return None,
+  })
+}
+
+fn is_leaf(n: &AstNode) -> bool {
+  matches!(n, AstNode::Name(_) | AstNode::Numeric(..) | AstNode::String(_) | AstNode::Boolean(_) | AstNode::Null | AstNode::At(_))
+}
+
+/// Constructs that run as far right as they can: `if`, `for`, `some`, `every`, `function`.
+fn is_open_prefix(n: &AstNode) -> bool {
+  matches!(n, AstNode::If(..) | AstNode::For(..) | AstNode::Some(..) | AstNode::Every(..) | AstNode::FunctionDefinition(..))
+}
+
+/// The last token of the type is a name: a following `.` continues the qualified name.
+fn type_ends_in_qname(ty: &AstNode) -> bool {
+  match ty {
+    AstNode::QualifiedName(_) => true,
+    AstNode::FunctionType(_, r) => type_ends_in_qname(r),
+    _ => false,
+  }
+}
+
+impl<'a> Printer<'a> {
+  fn wrapped(&self, needs: bool, c: &AstNode) -> bool {
+    needs || (self.full && !is_leaf(c))
+  }
+  fn opd(&self, needs: bool, c: &AstNode) -> String {
+    if self.wrapped(needs, c) {
+      format!("\u{1}({})", self.pr(c))
+    } else {
+      self.pr(c)
+    }
+  }
+  fn nonassoc_level(&self, n: &AstNode) -> Option<u32> {
+    let (k, _, _, _) = bin_parts(n)?;
+    let (l, _, na) = self.lv.lvl[k];
+    if na {
+      Some(l)
+    } else {
+      None
+    }
+  }
+  /// see `Dmn.Ref.absorbs`
+  fn absorbs(&self, n: &AstNode, t: Follow) -> bool {
+    if let Some((k, _, _, r)) = bin_parts(n) {
+      let rm = self.lv.lvl[k].1;
+      return t.level() >= rm || (!self.wrapped(!self.starts_ok(rm, r), r) && self.absorbs(r, t));
+    }
+    match n {
+      AstNode::Neg(e) => t.level() >= self.lv.neg || (!self.wrapped(!self.starts_ok(self.lv.neg, e), e) && self.absorbs(e, t)),
+      AstNode::Between(_, _, hi) => t.level() >= self.lv.hi || (!self.wrapped(!self.starts_ok(self.lv.hi, hi), hi) && self.absorbs(hi, t)),
+      AstNode::InstanceOf(_, ty) => type_ends_in_qname(ty) && matches!(t, Follow::Dot(_)),
+      // the unary tests `< x.y`: the endpoint is a qualified name
+      AstNode::UnaryLt(e) | AstNode::UnaryLe(e) | AstNode::UnaryGt(e) | AstNode::UnaryGe(e) => matches!(**e, AstNode::QualifiedName(_)) && matches!(t, Follow::Dot(_)),
+      n if is_open_prefix(n) => true,
+      _ => false,
+    }
+  }
+  /// see `Dmn.Ref.startsOk`
+  fn starts_ok(&self, min: u32, n: &AstNode) -> bool {
+    if let Some((k, _, l, _)) = bin_parts(n) {
+      let lvl = self.lv.lvl[k].0;
+      return min <= lvl && (self.wrapped(self.needs_left(l, Follow::Level(lvl), self.nonassoc_level(n)), l) || self.starts_ok(min, l));
+    }
+    match n {
+      AstNode::Between(e, _, _) => min <= self.lv.between && (self.wrapped(self.needs_left(e, Follow::Level(self.lv.between), None), e) || self.starts_ok(min, e)),
+      AstNode::InstanceOf(e, _) => min <= self.lv.instance && (self.wrapped(self.needs_left(e, Follow::Level(self.lv.instance), None), e) || self.starts_ok(min, e)),
+      AstNode::Path(e, _) => min <= self.lv.dot && (self.wrapped(self.needs_left(e, Follow::Dot(self.lv.dot), None), e) || self.starts_ok(min, e)),
+      AstNode::Filter(e, _) => min <= self.lv.brack && (self.wrapped(self.needs_left(e, Follow::Level(self.lv.brack), None), e) || self.starts_ok(min, e)),
+      AstNode::FunctionInvocation(e, _) => min <= self.lv.paren && (self.wrapped(self.needs_left(e, Follow::Level(self.lv.paren), None), e) || self.starts_ok(min, e)),
+      AstNode::In(e, _) => {
+        // `e in (a, b)`: the token `in`
+        let lvl = self.lv.lvl["in"].0;
+        min <= lvl && (self.wrapped(self.needs_left(e, Follow::Level(lvl), None), e) || self.starts_ok(min, e))
+      }
+      _ => true,
+    }
+  }
+  fn needs_left(&self, c: &AstNode, t: Follow, nonassoc: Option<u32>) -> bool {
+    self.absorbs(c, t) || (nonassoc.is_some() && self.nonassoc_level(c) == nonassoc)
+  }
+  fn list(&self, items: &[AstNode]) -> String {
+    items.iter().map(|i| self.opd(false, i)).collect::<Vec<_>>().join(", ")
+  }
+  fn ty(&self, n: &AstNode) -> String {
+    match n {
+      AstNode::FeelType(t) => t.to_string(),
+      AstNode::QualifiedName(segs) => segs
+        .iter()
+        .map(|s| match s {
+          AstNode::QualifiedNameSegment(n) => n.to_string(),
+          _ => "?".into(),
+        })
+        .collect::<Vec<_>>()
+        .join(" . "),
+      AstNode::ListType(t) => format!("list<{}>", self.ty(t)),
+      AstNode::RangeType(t) => format!("range<{}>", self.ty(t)),
+      AstNode::FunctionType(ps, r) => {
+        let ps = match &**ps {
+          AstNode::ParameterTypes(ps) => ps.iter().map(|p| self.ty(p)).collect::<Vec<_>>().join(", "),
+          _ => "?".into(),
+        };
+        format!("function<{}> -> {}", ps, self.ty(r))
+      }
+      AstNode::ContextType(es) => {
+        let es = es
+          .iter()
+          .map(|e| match e {
+            AstNode::ContextTypeEntry(k, t) => match &**k {
+              AstNode::ContextTypeEntryKey(k) => format!("{}: {}", k, self.ty(t)),
+              _ => "?".into(),
+            },
+            _ => "?".into(),
+          })
+          .collect::<Vec<_>>()
+          .join(", ");
+        format!("context<{}>", es)
+      }
+      _ => "?".into(),
+    }
+  }
+  fn endpoint(&self, n: &AstNode) -> String {
+    match n {
+      AstNode::QualifiedName(_) => self.ty(n),
+      n => self.pr(n),
+    }
+  }
+  fn pr(&self, n: &AstNode) -> String {
+    if let Some((k, text, l, r)) = bin_parts(n) {
+      let (lvl, rm, _) = self.lv.lvl[k];
+      return format!("{} {} {}", self.opd(self.needs_left(l, Follow::Level(lvl), self.nonassoc_level(n)), l), text, self.opd(!self.starts_ok(rm, r), r));
+    }
+    match n {
+      AstNode::Name(n) => n.to_string(),
+      AstNode::Numeric(a, b) => {
+        if b.is_empty() {
+          a.clone()
+        } else {
+          format!("{}.{}", a, b)
+        }
+      }
+      AstNode::String(s) => format!("\"{}\"", s),
+      AstNode::Boolean(b) => b.to_string(),
+      AstNode::Null => "null".into(),
+      AstNode::At(s) => format!("@\"{}\"", s),
+      AstNode::Neg(e) => format!("- {}", self.opd(!self.starts_ok(self.lv.neg, e), e)),
+      AstNode::Between(e, lo, hi) => format!(
+        "{} between {} and {}",
+        self.opd(self.needs_left(e, Follow::Level(self.lv.between), None), e),
+        self.opd(false, lo),
+        self.opd(!self.starts_ok(self.lv.hi, hi), hi)
+      ),
+      AstNode::InstanceOf(e, t) => format!("{} instance of {}", self.opd(self.needs_left(e, Follow::Level(self.lv.instance), None), e), self.ty(t)),
+      AstNode::Path(e, m) => format!("{} . {}", self.opd(self.needs_left(e, Follow::Dot(self.lv.dot), None), e), self.pr(m)),
+      AstNode::Filter(e, i) => format!("{} [ {} ]", self.opd(self.needs_left(e, Follow::Level(self.lv.brack), None), e), self.opd(false, i)),
+      AstNode::FunctionInvocation(f, ps) => {
+        let ps = match &**ps {
+          AstNode::PositionalParameters(ps) => self.list(ps),
+          AstNode::NamedParameters(ps) => ps
+            .iter()
+            .map(|p| match p {
+              AstNode::NamedParameter(k, v) => match &**k {
+                AstNode::ParameterName(k) => format!("{}: {}", k, self.opd(false, v)),
+                _ => "?".into(),
+              },
+              _ => "?".into(),
+            })
+            .collect::<Vec<_>>()
+            .join(", "),
+          _ => "?".into(),
+        };
+        format!("{} ( {} )", self.opd(self.needs_left(f, Follow::Level(self.lv.paren), None), f), ps)
+      }
+      AstNode::In(e, l) => match &**l {
+        AstNode::ExpressionList(items) => format!("{} in \u{1}( {} )", self.opd(self.needs_left(e, Follow::Level(self.lv.lvl["in"].0), None), e), self.list(items)),
+        _ => "?".into(),
+      },
+      AstNode::If(c, t, e) => format!("if {} then {} else {}", self.opd(false, c), self.opd(false, t), self.opd(false, e)),
+      AstNode::For(ctxs, body) => {
+        let ctxs = match &**ctxs {
+          AstNode::IterationContexts(cs) => cs
+            .iter()
+            .map(|c| match c {
+              AstNode::IterationContextSingle(v, e) => format!("{} in {}", self.pr(v), self.opd(false, e)),
+              AstNode::IterationContextRange(v, a, b) => format!("{} in {} .. {}", self.pr(v), self.opd(false, a), self.opd(false, b)),
+              _ => "?".into(),
+            })
+            .collect::<Vec<_>>()
+            .join(", "),
+          _ => "?".into(),
+        };
+        let body = match &**body {
+          AstNode::EvaluatedExpression(b) => self.opd(false, b),
+          _ => "?".into(),
+        };
+        format!("for {} return {}", ctxs, body)
+      }
+      AstNode::Some(ctxs, sat) | AstNode::Every(ctxs, sat) => {
+        let kw = if matches!(n, AstNode::Some(..)) { "some" } else { "every" };
+        let ctxs = match &**ctxs {
+          AstNode::QuantifiedContexts(cs) => cs
+            .iter()
+            .map(|c| match c {
+              AstNode::QuantifiedContext(v, e) => format!("{} in {}", self.pr(v), self.opd(false, e)),
+              _ => "?".into(),
+            })
+            .collect::<Vec<_>>()
+            .join(", "),
+          _ => "?".into(),
+        };
+        let sat = match &**sat {
+          AstNode::Satisfies(b) => self.opd(false, b),
+          _ => "?".into(),
+        };
+        format!("{} {} satisfies {}", kw, ctxs, sat)
+      }
+      AstNode::FunctionDefinition(ps, body) => {
+        let ps = match &**ps {
+          AstNode::FormalParameters(ps) => ps
+            .iter()
+            .map(|p| match p {
+              AstNode::FormalParameter(k, t) => match (&**k, &**t) {
+                (AstNode::ParameterName(k), AstNode::FeelType(FeelType::Any)) => k.to_string(),
+                (AstNode::ParameterName(k), t) => format!("{}: {}", k, self.ty(t)),
+                _ => "?".into(),
+              },
+              _ => "?".into(),
+            })
+            .collect::<Vec<_>>()
+            .join(", "),
+          _ => "?".into(),
+        };
+        match &**body {
+          AstNode::FunctionBody(b, ext) => format!("function({}) {}{}", ps, if *ext { "external " } else { "" }, self.opd(false, b)),
+          _ => "?".into(),
+        }
+      }
+      AstNode::List(items) => format!("\u{1}[ {} ]", self.list(items)),
+      AstNode::Context(es) => {
+        let es = es
+          .iter()
+          .map(|e| match e {
+            AstNode::ContextEntry(k, v) => match &**k {
+              AstNode::ContextEntryKey(k) => {
+                let k = k.to_string();
+                if k.contains(' ') {
+                  format!("\"{}\": {}", k, self.opd(false, v))
+                } else {
+                  format!("{}: {}", k, self.opd(false, v))
+                }
+              }
+              _ => "?".into(),
+            },
+            _ => "?".into(),
+          })
+          .collect::<Vec<_>>()
+          .join(", ");
+        format!("{{ {} }}", es)
+      }
+      AstNode::Range(s, e) => match (&**s, &**e) {
+        (AstNode::IntervalStart(a, ca), AstNode::IntervalEnd(b, cb)) => format!("{} {} .. {} {}", if *ca { "[" } else { "(" }, self.endpoint(a), self.endpoint(b), if *cb { "]" } else { ")" }),
+        _ => "?".into(),
+      },
+      AstNode::UnaryLt(e) => format!("< {}", self.endpoint(e)),
+      AstNode::UnaryLe(e) => format!("<= {}", self.endpoint(e)),
+      AstNode::UnaryGt(e) => format!("> {}", self.endpoint(e)),
+      AstNode::UnaryGe(e) => format!(">= {}", self.endpoint(e)),
+      AstNode::ExpressionList(items) => self.list(items),
+      AstNode::NegatedList(items) => format!("not ( {} )", self.list(items)),
+      AstNode::Irrelevant => "-".into(),
+      _ => "?".into(),
+    }
+  }
+}
+
+// ---- generator of extended trees
+
+fn local_ast(i: usize) -> AstNode {
+  AstNode::Name(Name::from(LOCALS[i]))
+}
+
+fn qname(rng: &mut Rng) -> AstNode {
+  let n = 1 + rng.below(2) as usize;
+  AstNode::QualifiedName((0..n).map(|_| AstNode::QualifiedNameSegment(Name::from(NAMES[rng.below(8) as usize]))).collect())
+}
+
+fn endpoint(rng: &mut Rng) -> AstNode {
+  match rng.below(3) {
+    0 => qname(rng),
+    1 => AstNode::Numeric(rng.below(10).to_string(), String::new()),
+    _ => AstNode::String("s".into()),
+  }
+}
+
+fn range_or_test(rng: &mut Rng) -> AstNode {
+  match rng.below(6) {
+    0 => AstNode::UnaryLt(Box::new(endpoint(rng))),
+    1 => AstNode::UnaryLe(Box::new(endpoint(rng))),
+    2 => AstNode::UnaryGt(Box::new(endpoint(rng))),
+    3 => AstNode::UnaryGe(Box::new(endpoint(rng))),
+    _ => AstNode::Range(Box::new(AstNode::IntervalStart(Box::new(endpoint(rng)), rng.chance(1, 2))), Box::new(AstNode::IntervalEnd(Box::new(endpoint(rng)), rng.chance(1, 2)))),
+  }
+}
+
+/// A type; `tail` = may its last token be a built-in type name (it may when a delimiter
+/// follows: `)`, `,`, `>`).
+fn type_node(rng: &mut Rng, depth: u32, tail: bool) -> AstNode {
+  if depth == 0 || rng.chance(1, 2) {
+    return match rng.below(if tail { 3 } else { 1 }) {
+      0 => AstNode::QualifiedName(vec![AstNode::QualifiedNameSegment(Name::from(NAMES[8 + rng.below(2) as usize]))]),
+      1 => AstNode::FeelType(FeelType::Number),
+      _ => AstNode::FeelType(FeelType::String),
+    };
+  }
+  match rng.below(4) {
+    0 => AstNode::ListType(Box::new(type_node(rng, depth - 1, true))),
+    1 => AstNode::RangeType(Box::new(type_node(rng, depth - 1, true))),
+    2 => AstNode::ContextType(vec![AstNode::ContextTypeEntry(Box::new(AstNode::ContextTypeEntryKey(Name::from("k"))), Box::new(type_node(rng, depth - 1, true)))]),
+    _ => {
+      let n = rng.below(3);
+      AstNode::FunctionType(Box::new(AstNode::ParameterTypes((0..n).map(|_| type_node(rng, depth - 1, true)).collect())), Box::new(type_node(rng, depth - 1, tail)))
+    }
+  }
+}
+
+/// Random tree of the whole expression language; `locals` = how many local names are in scope.
+fn random_ext(rng: &mut Rng, depth: u32, locals: usize) -> AstNode {
+  if depth == 0 || rng.chance(1, 6) {
+    return match rng.below(10) {
+      0 => AstNode::Numeric(rng.below(10).to_string(), String::new()),
+      1 => AstNode::Numeric(rng.below(10).to_string(), rng.below(100).to_string()),
+      2 => lit_ast(rng.below(6) as usize),
+      3 if locals > 0 => local_ast(rng.below(locals as u64) as usize),
+      _ => name_ast(rng.below(6) as usize),
+    };
+  }
+  let d = depth - 1;
+  let b = |rng: &mut Rng| Box::new(random_ext(rng, d, locals));
+  match rng.below(30) {
+    0..=8 => {
+      let o = *rng.pick(&OPS);
+      T::Bin(o, Box::new(T::Name(0)), Box::new(T::Name(0))).ast_with(b(rng), b(rng))
+    }
+    9 => AstNode::Neg(b(rng)),
+    10 => AstNode::Between(b(rng), b(rng), b(rng)),
+    11 => {
+      let tail = rng.chance(1, 8);
+      AstNode::InstanceOf(b(rng), Box::new(type_node(rng, 2, tail)))
+    }
+    12 => AstNode::Path(b(rng), Box::new(name_ast(rng.below(8) as usize))),
+    13 => AstNode::Filter(b(rng), b(rng)),
+    14 => {
+      let n = rng.below(3);
+      AstNode::FunctionInvocation(b(rng), Box::new(AstNode::PositionalParameters((0..n).map(|_| random_ext(rng, d, locals)).collect())))
+    }
+    15 => {
+      let n = 1 + rng.below(2);
+      let ps = (0..n).map(|i| AstNode::NamedParameter(Box::new(AstNode::ParameterName(Name::from(NAMES[6 + i as usize]))), b(rng))).collect();
+      AstNode::FunctionInvocation(b(rng), Box::new(AstNode::NamedParameters(ps)))
+    }
+    16 | 17 => AstNode::If(b(rng), b(rng), b(rng)),
+    18 | 19 if locals < LOCALS.len() => {
+      // for: one or two iteration contexts; the variable is visible in what follows
+      let two = locals + 1 < LOCALS.len() && rng.chance(1, 3);
+      let mut ctxs = vec![];
+      let mut l = locals;
+      for _ in 0..(if two { 2 } else { 1 }) {
+        let v = Box::new(local_ast(l));
+        if rng.chance(1, 3) {
+          ctxs.push(AstNode::IterationContextRange(v, Box::new(random_ext(rng, d.min(2), l)), Box::new(random_ext(rng, d.min(2), l))));
+        } else {
+          ctxs.push(AstNode::IterationContextSingle(v, Box::new(random_ext(rng, d, l))));
+        }
+        l += 1;
+      }
+      AstNode::For(Box::new(AstNode::IterationContexts(ctxs)), Box::new(AstNode::EvaluatedExpression(Box::new(random_ext(rng, d, l)))))
+    }
+    20 | 21 if locals < LOCALS.len() => {
+      let v = Box::new(local_ast(locals));
+      let ctxs = vec![AstNode::QuantifiedContext(v, Box::new(random_ext(rng, d, locals)))];
+      let sat = Box::new(AstNode::Satisfies(Box::new(random_ext(rng, d, locals + 1))));
+      if rng.chance(1, 2) {
+        AstNode::Some(Box::new(AstNode::QuantifiedContexts(ctxs)), sat)
+      } else {
+        AstNode::Every(Box::new(AstNode::QuantifiedContexts(ctxs)), sat)
+      }
+    }
+    22 if locals < LOCALS.len() => {
+      let typed = rng.chance(1, 3);
+      let t = if typed { type_node(rng, 1, true) } else { AstNode::FeelType(FeelType::Any) };
+      let ps = vec![AstNode::FormalParameter(Box::new(AstNode::ParameterName(Name::from(LOCALS[locals]))), Box::new(t))];
+      AstNode::FunctionDefinition(Box::new(AstNode::FormalParameters(ps)), Box::new(AstNode::FunctionBody(Box::new(random_ext(rng, d, locals + 1)), false)))
+    }
+    23 | 24 => {
+      let n = rng.below(4);
+      AstNode::List((0..n).map(|_| random_ext(rng, d, locals)).collect())
+    }
+    25 => {
+      let n = rng.below(3);
+      let keys = ["k1", "k2", "key three"];
+      AstNode::Context((0..n).map(|i| AstNode::ContextEntry(Box::new(AstNode::ContextEntryKey(Name::from(keys[i as usize]))), Box::new(random_ext(rng, d, locals)))).collect())
+    }
+    26 | 27 => AstNode::In(b(rng), Box::new(range_or_test(rng))),
+    28 => {
+      let n = 2 + rng.below(2);
+      AstNode::In(b(rng), Box::new(AstNode::ExpressionList((0..n).map(|_| if rng.chance(1, 2) { range_or_test(rng) } else { random_ext(rng, d, locals) }).collect())))
+    }
+    _ => range_or_test(rng),
+  }
+}
+
+impl T {
+  /// A binary node of this operator over two given `AstNode`s.
+  fn ast_with(&self, l: Box<AstNode>, r: Box<AstNode>) -> AstNode {
+    match self {
+      T::Bin(o, _, _) => match o {
+        Op::Or => AstNode::Or(l, r),
+        Op::And => AstNode::And(l, r),
+        Op::Eq => AstNode::Eq(l, r),
+        Op::Nq => AstNode::Nq(l, r),
+        Op::Lt => AstNode::Lt(l, r),
+        Op::Le => AstNode::Le(l, r),
+        Op::Gt => AstNode::Gt(l, r),
+        Op::Ge => AstNode::Ge(l, r),
+        Op::In => AstNode::In(l, r),
+        Op::Add => AstNode::Add(l, r),
+        Op::Sub => AstNode::Sub(l, r),
+        Op::Mul => AstNode::Mul(l, r),
+        Op::Div => AstNode::Div(l, r),
+        Op::Exp => AstNode::Exp(l, r),
+      },
+      _ => AstNode::Null,
+    }
+  }
+}
+
+/// Features of an extended tree that the current code is known to mishandle (each has its
+/// own signature, so that anything else still surfaces).
+fn ext_between_unsafe(n: &AstNode) -> bool {
+  fn has_and(n: &AstNode) -> bool {
+    let mut found = false;
+    walk(n, &mut |x| {
+      if matches!(x, AstNode::And(..) | AstNode::Between(..)) {
+        found = true;
+      }
+    });
+    found
+  }
+  let mut bad = false;
+  walk(n, &mut |x| {
+    if let AstNode::Between(_, lo, _) = x {
+      if has_and(lo) {
+        bad = true;
+      }
+    }
+  });
+  bad
+}
+
+fn children(n: &AstNode) -> Vec<&AstNode> {
+  use AstNode::*;
+  match n {
+    Add(a, b) | And(a, b) | Div(a, b) | Eq(a, b) | Exp(a, b) | Ge(a, b) | Gt(a, b) | In(a, b) | Le(a, b) | Lt(a, b) | Mul(a, b) | Nq(a, b) | Or(a, b) | Sub(a, b) | Filter(a, b)
+    | Path(a, b) | InstanceOf(a, b) | FunctionInvocation(a, b) | ContextEntry(a, b) | Every(a, b) | Some(a, b) | For(a, b) | FormalParameter(a, b) | FunctionDefinition(a, b)
+    | IterationContextSingle(a, b) | NamedParameter(a, b) | QuantifiedContext(a, b) | Range(a, b) | FunctionType(a, b) | ContextTypeEntry(a, b) | Out(a, b) => vec![a, b],
+    Between(a, b, c) | If(a, b, c) | IterationContextRange(a, b, c) => vec![a, b, c],
+    Neg(a) | EvaluatedExpression(a) | Satisfies(a) | FunctionBody(a, _) | IntervalStart(a, _) | IntervalEnd(a, _) | ListType(a) | RangeType(a) | UnaryGe(a) | UnaryGt(a) | UnaryLe(a)
+    | UnaryLt(a) => vec![a],
+    CommaList(v) | Context(v) | ContextType(v) | ExpressionList(v) | FormalParameters(v) | IterationContexts(v) | List(v) | NamedParameters(v) | NegatedList(v) | ParameterTypes(v)
+    | PositionalParameters(v) | QualifiedName(v) | QuantifiedContexts(v) => v.iter().collect(),
+    _ => vec![],
+  }
+}
+
+fn walk<'a>(n: &'a AstNode, f: &mut dyn FnMut(&'a AstNode)) {
+  f(n);
+  for c in children(n) {
+    walk(c, f);
+  }
+}
+
+fn node_name(n: &AstNode) -> String {
+  let d = format!("{:?}", n);
+  d.split(|c: char| !c.is_alphanumeric()).next().unwrap_or("").to_string()
+}
+
+// ------------------------------------------------------------------------------------------
+// escapes
+// ------------------------------------------------------------------------------------------
+
+fn hex(ds: &[u64], upper: bool) -> String {
+  ds.iter().map(|d| if upper { format!("{:X}", d) } else { format!("{:x}", d) }).collect()
+}
+
+fn escape_text(form: &str, digits: &[u64], upper: bool) -> String {
+  match form {
+    "u4" => format!("\"\\u{}\"", hex(digits, upper)),
+    "u6" => format!("\"\\U{}\"", hex(digits, upper)),
+    _ => format!("\"\\u{}\\u{}\"", hex(&digits[..4], upper), hex(&digits[4..], upper)),
+  }
+}
+
+// ------------------------------------------------------------------------------------------
+// the run
+// ------------------------------------------------------------------------------------------
+
+struct Case {
+  family: &'static str,
+  tree: T,
+  mode: &'static str,
+}
+
+pub fn run(cfg: &Cfg) -> Report {
+  if cfg.extra.first().map(|s| s.as_str()) == Some("probe") {
+    probe();
+  }
+  let mut rep = Report::new(
+    "C06",
+    "a case is one (tree, rendering) or (escape form, code point) pair. Trees: every (parent position, child kind) pair of the operator skeleton (14 binary operators, unary minus, between, instance of, path, filter, invocation with 0-2 arguments) — and every triple in the thorough tier — plus random skeleton trees and random trees of the whole expression language; renderings: Ref.print full, Ref.print minimal, minimal with one needed pair of parentheses removed, random token-preserving layouts. A tree case is non-trivial when the tree has at least two operators (depth >= 2); an escape case when the code point is outside ASCII; distinct by rendered text.",
+  );
+  let mut model = Model::start(&cfg.driver);
+  let mut rng = Rng::new(cfg.seed);
+  let thorough = cfg.tier == "thorough";
+
+  let levels = match levels_of(&model.ask("(c06 table)")) {
+    Some(l) => l,
+    None => {
+      rep.disagree(Kind::ImplVsModel, "table", "driver-error", "(c06 table)", "", "the levels of Gen/Prec.lean");
+      return rep;
+    }
+  };
+  rep.extra.insert("table".into(), json!(format!("{:?}", levels)));
+
+  // ---------------------------------------------------------------- skeleton trees
+  let mut cases: Vec<Case> = vec![];
+  // regression corpus first
+  let n = |i| Box::new(T::Name(i));
+  let corpus: Vec<T> = vec![
+    T::Between(n(0), Box::new(T::Bin(Op::And, n(1), n(2))), n(3)),
+    T::Between(n(0), Box::new(T::Between(n(1), n(2), n(3))), n(4)),
+    T::Bin(Op::Eq, Box::new(T::Bin(Op::Eq, n(0), n(1))), n(2)),
+    T::Bin(Op::Exp, n(0), Box::new(T::Bin(Op::Exp, n(1), n(2)))),
+    T::Path(Box::new(T::Inst(n(0), 8, vec![])), 1),
+    T::Bin(Op::In, Box::new(T::Bin(Op::In, n(0), n(1))), n(2)),
+    // ( a . b . c + 1 ) * 2  — F22
+    T::Bin(Op::Mul, Box::new(T::Bin(Op::Add, Box::new(T::Path(Box::new(T::Path(n(0), 1)), 2)), Box::new(T::Num(1)))), Box::new(T::Num(2))),
+    // - ( a . b . c )
+    T::Neg(Box::new(T::Bin(Op::Exp, Box::new(T::Path(Box::new(T::Path(n(0), 1)), 2)), n(3)))),
+    // a between b + 1 and c  (fine), a = ( b between c and d ) (fine)
+    T::Between(n(0), Box::new(T::Bin(Op::Add, n(1), Box::new(T::Num(1)))), n(2)),
+    T::Bin(Op::Eq, n(0), Box::new(T::Between(n(1), n(2), n(3)))),
+  ];
+  for t in corpus {
+    cases.push(Case { family: "corpus", tree: t, mode: "full" });
+  }
+  let pairs = all_pairs();
+  rep.extra.insert("operator_pairs".into(), json!(pairs.len()));
+  for t in pairs {
+    cases.push(Case { family: "pairs", tree: t, mode: "full" });
+  }
+  if thorough {
+    let triples = all_triples(&kinds());
+    rep.extra.insert("operator_triples".into(), json!(triples.len()));
+    for t in triples {
+      cases.push(Case { family: "triples", tree: t, mode: "full" });
+    }
+  } else {
+    // a slice of the triples in the quick tier: one operator per level
+    let ks = [Kind0::Bin(Op::Or), Kind0::Bin(Op::And), Kind0::Bin(Op::Lt), Kind0::Bin(Op::In), Kind0::Bin(Op::Sub), Kind0::Bin(Op::Div), Kind0::Bin(Op::Exp), Kind0::Neg, Kind0::Between, Kind0::Inst, Kind0::Path, Kind0::Call1];
+    let triples: Vec<T> = all_triples(&ks).into_iter().filter(|t| t.depth() >= 2).collect();
+    let keep: Vec<T> = triples.into_iter().enumerate().filter(|(i, _)| i % 3 == (cfg.seed % 3) as usize).map(|(_, t)| t).collect();
+    rep.extra.insert("operator_triples".into(), json!(keep.len()));
+    for t in keep {
+      cases.push(Case { family: "triples", tree: t, mode: "full" });
+    }
+  }
+  let (n_random, max_depth) = if thorough { (60_000, 8) } else { (4_000, 5) };
+  for i in 0..n_random {
+    let d = 2 + (i as u32 % (max_depth - 1));
+    cases.push(Case { family: "random", tree: random_tree(&mut rng, d), mode: "full" });
+  }
+  // both renderings of every tree
+  let mut all: Vec<Case> = vec![];
+  for c in cases {
+    all.push(Case { family: c.family, tree: c.tree.clone(), mode: "minimal" });
+    all.push(c);
+  }
+  let reqs: Vec<String> = all.iter().map(|c| format!("(c06 rt {} {})", c.mode, c.tree.sexp())).collect();
+  let answers = model.ask_batch(&reqs);
+
+  // second round: the minimal rendering with one needed pair removed; layouts
+  let mut drop_reqs: Vec<String> = vec![];
+  let mut drop_cases: Vec<(usize, Vec<Tk>)> = vec![];
+  let mut layout_jobs: Vec<(usize, Vec<Tk>, Result<AstNode, String>)> = vec![];
+
+  for (i, ((c, req), ans)) in all.iter().zip(reqs.iter()).zip(answers.iter()).enumerate() {
+    let parsed = Sexp::parse(ans);
+    let l = parsed.as_ref().and_then(|s| s.as_list());
+    let got = l.and_then(|l| if l.len() == 4 { Some((toks_of(&l[1]), model_result(&l[2]), model_result(&l[3]))) } else { None });
+    let (toks, m_parse, m_surface) = match got {
+      Some((Some(t), Some(p), Some(s))) => (t, p, s),
+      _ => {
+        rep.disagree(Kind::ImplVsModel, c.family, "driver-error", req, "", ans);
+        continue;
+      }
+    };
+    let text = render_plain(&toks);
+    let expected = c.tree.ast();
+    rep.case(&text, c.tree.depth() >= 2);
+    rep.hit(&format!("{}:{}", c.family, c.mode));
+    rep.hit(&format!("root:{}", c.tree.kind()));
+    rep.hit(&format!("depth:{}", c.tree.depth().min(9)));
+    // the reference parser must give back the tree (this is the theorem, observed)
+    if m_parse.as_ref() != Some(&expected) {
+      rep.disagree(
+        Kind::ImplVsModel,
+        c.family,
+        &format!("Ref.parse (Ref.print {} t) differs from t", c.mode),
+        &format!("{}  [{}]", text, c.tree.sexp()),
+        &show_model(&m_parse),
+        &short(&format!("{:?}", expected)),
+      );
+    }
+    // the harness' own printer (used for the whole expression language) follows the same rule
+    {
+      let p = Printer { lv: &levels, full: c.mode == "full" };
+      let mine: Vec<String> = text_tokens(&p.pr(&expected)).into_iter().filter(|t| t != "\u{1}").collect();
+      if mine != text_tokens(&text) {
+        rep.disagree(Kind::ImplVsModel, c.family, &format!("the harness printer differs from Ref.print {}", c.mode), &text, &mine.join(" "), &text);
+      }
+    }
+    let im = run_impl(&text);
+    rep.hit(if im.is_ok() { "impl:parsed" } else { "impl:rejected" });
+    // the tie: the real parser against the model of what it does (lexer flag + grammar)
+    if !same(&im, &m_surface) {
+      rep.disagree(Kind::ImplVsModel, c.family, &format!("parse_expression differs from Ref.parseSurface ({} rendering)", c.mode), &text, &show(&im), &show_model(&m_surface));
+    }
+    // the property
+    if im.as_ref().ok() != Some(&expected) {
+      let sig = if c.tree.between_unsafe() {
+        SIG_BETWEEN.to_string()
+      } else if path_quirk(&toks) {
+        SIG_PATH3.to_string()
+      } else {
+        format!("parse(print_{} t) differs from t", c.mode)
+      };
+      rep.disagree(Kind::ImplVsSpec, c.family, &sig, &text, &show(&im), &short(&format!("{:?}", expected)));
+    }
+    if rep.samples.len() < 6 && c.tree.depth() >= 2 && c.mode == "minimal" && i % 7 == 0 {
+      rep.sample(json!({"request": req, "text": text, "implementation": show(&im), "model": ans}));
+    }
+    if c.mode == "minimal" {
+      for (a, b) in grouping_pairs(&toks) {
+        let mut t2 = toks.clone();
+        t2.remove(b);
+        t2.remove(a);
+        drop_reqs.push(format!("(c06 parse {})", toks_sexp(&t2)));
+        drop_cases.push((i, t2));
+      }
+    }
+    // layouts: a share of the cases
+    let share = if c.family == "random" { 4 } else { 2 };
+    if i % share == 0 {
+      layout_jobs.push((i, toks, im));
+    }
+  }
+
+  // ---------------------------------------------------------------- needed parentheses removed
+  let drop_answers = model.ask_batch(&drop_reqs);
+  for (((i, toks), req), ans) in drop_cases.iter().zip(drop_reqs.iter()).zip(drop_answers.iter()) {
+    let c = &all[*i];
+    let parsed = Sexp::parse(ans);
+    let l = parsed.as_ref().and_then(|s| s.as_list());
+    let got = l.and_then(|l| if l.len() == 3 { Some((model_result(&l[1]), model_result(&l[2]))) } else { None });
+    let (m_parse, m_surface) = match got {
+      Some((Some(p), Some(s))) => (p, s),
+      _ => {
+        rep.disagree(Kind::ImplVsModel, "paren-removed", "driver-error", req, "", ans);
+        continue;
+      }
+    };
+    let text = render_plain(toks);
+    let expected = c.tree.ast();
+    rep.case(&text, c.tree.depth() >= 2);
+    rep.hit("paren-removed");
+    if m_parse.as_ref() == Some(&expected) {
+      rep.disagree(Kind::ImplVsModel, "paren-removed", "Ref.parse gives the same tree without a pair that needsParens demands", &text, &show_model(&m_parse), "another tree or no parse");
+    }
+    let im = run_impl(&text);
+    rep.hit(if im.is_ok() { "paren-removed:another-tree" } else { "paren-removed:rejected" });
+    if !same(&im, &m_surface) {
+      rep.disagree(Kind::ImplVsModel, "paren-removed", "parse_expression differs from Ref.parseSurface (needed pair removed)", &text, &show(&im), &show_model(&m_surface));
+    }
+    if im.as_ref().ok() == Some(&expected) {
+      rep.disagree(Kind::ImplVsSpec, "paren-removed", "removing a needed pair of parentheses does not change the tree", &text, &show(&im), "another tree or a syntax error");
+    }
+  }
+
+  // ---------------------------------------------------------------- layouts
+  // fixed witnesses first: (layout, the plain text it must agree with, signature when it does not)
+  for (text, plain, sig) in [
+    ("a /* x */ /* y */ and b", "a and b", SIG_TWO_COMMENTS),
+    ("a // x\n // y\n + b", "a + b", SIG_TWO_COMMENTS),
+    ("a and/**/ b", "a and b", SIG_KEYWORD_COMMENT),
+    ("a in// x\n b", "a in b", SIG_KEYWORD_COMMENT),
+    ("null(1)", "null (1)", SIG_LITERAL_PAREN),
+    ("a /* x */ and // y\n b", "a and b", "layout changes the tree"),
+    ("\t( a\n+ b ) /* ) */ * // (\n c", "( a + b ) * c", "layout changes the tree"),
+    ("a\u{00A0}between\u{2003}b\r\nand c", "a between b and c", "layout changes the tree"),
+  ] {
+    rep.case(text, true);
+    rep.hit("layout:corpus");
+    let (im, base) = (run_impl(text), run_impl(plain));
+    if im != base || base.is_err() {
+      rep.disagree(Kind::ImplVsSpec, "layout", sig, text, &show(&im), &show(&base));
+    }
+  }
+  let mut layout_rng = rng.fork();
+  for (k, (i, toks, base)) in layout_jobs.iter().enumerate() {
+    let c = &all[*i];
+    let lit_paren = toks.windows(2).any(|w| (w[0].text == "true" || w[0].text == "false" || w[0].text == "null") && w[1].text == "(");
+    let class = match k % 10 {
+      8 => LayoutClass::DoubleComment,
+      9 => LayoutClass::KeywordComment,
+      7 if lit_paren => LayoutClass::LiteralParen,
+      _ => LayoutClass::Clean,
+    };
+    if class == LayoutClass::KeywordComment && !toks.iter().enumerate().any(|(j, t)| t.keyword && j + 1 < toks.len()) {
+      continue;
+    }
+    if class == LayoutClass::DoubleComment && toks.len() < 2 {
+      continue;
+    }
+    let text = render_layout(toks, &mut layout_rng, class);
+    rep.case(&text, c.tree.depth() >= 2);
+    rep.hit(&format!("layout:{:?}", class));
+    let im = run_impl(&text);
+    let equal = match (&im, base) {
+      (Ok(a), Ok(b)) => a == b,
+      (Err(_), Err(_)) => true,
+      _ => false,
+    };
+    if !equal {
+      let sig = match class {
+        LayoutClass::Clean => "layout changes the tree",
+        LayoutClass::DoubleComment => SIG_TWO_COMMENTS,
+        LayoutClass::KeywordComment => SIG_KEYWORD_COMMENT,
+        LayoutClass::LiteralParen => SIG_LITERAL_PAREN,
+      };
+      rep.disagree(Kind::ImplVsSpec, "layout", sig, &text, &show(&im), &show(base));
+    }
+  }
+
+  // ---------------------------------------------------------------- gaps: the lexer alone
+  // `read_input` against `GapLayout.skipGap`: white space and 0-3 comments in front of `a`.
+  {
+    let mut gap_rng = rng.fork();
+    let ws: [&str; 7] = [" ", "\n", "\t", "\r\n", "\u{00A0}", "\u{2003}", "  "];
+    let body_chars: [&str; 10] = ["x", " ", "*", "/", "\"", "(", "+", "1", "**", "/ *"];
+    let n_gaps = if thorough { 40_000 } else { 2_000 };
+    let mut greqs = vec![];
+    let mut gcases: Vec<(String, usize)> = vec![];
+    for i in 0..n_gaps {
+      let n_comments = match i % 10 {
+        0..=2 => 0,
+        3..=6 => 1,
+        7 | 8 => 2,
+        _ => 3,
+      };
+      let mut text = String::new();
+      let some_ws = |text: &mut String, rng: &mut Rng| {
+        for _ in 0..rng.below(3) {
+          text.push_str(pick_str(rng, &ws));
+        }
+      };
+      some_ws(&mut text, &mut gap_rng);
+      for _ in 0..n_comments {
+        let mut body = String::new();
+        for _ in 0..gap_rng.below(5) {
+          body.push_str(pick_str(&mut gap_rng, &body_chars));
+        }
+        if gap_rng.chance(1, 2) {
+          text.push_str("//");
+          text.push_str(&body);
+          text.push('\n');
+        } else {
+          let body = body.replace("*/", "* /");
+          text.push_str("/*");
+          text.push_str(&body);
+          text.push_str("*/");
+        }
+        some_ws(&mut text, &mut gap_rng);
+      }
+      text.push('a');
+      greqs.push(format!("(c06 gap {})", Sexp::str(&text)));
+      gcases.push((text, n_comments));
+    }
+    let ganswers = model.ask_batch(&greqs);
+    let s0 = scope();
+    for (((text, n_comments), req), ans) in gcases.iter().zip(greqs.iter()).zip(ganswers.iter()) {
+      let left: Option<usize> = Sexp::parse(ans).and_then(|s| s.as_list().and_then(|l| l.get(1).and_then(|x| x.as_atom().and_then(|a| a.parse().ok()))));
+      let left = match left {
+        Some(n) => n,
+        None => {
+          rep.disagree(Kind::ImplVsModel, "gap", "driver-error", req, "", ans);
+          continue;
+        }
+      };
+      rep.case(text, *n_comments > 0);
+      rep.hit(&format!("gap:{}-comments", n_comments));
+      let len = text.chars().count();
+      let toks = guarded(|| dmntk_feel_parser::verif::tokenize(&s0, dmntk_feel_parser::VerifTokenType::StartExpression, text, (false, false, false, false), 2));
+      let first_end = match &toks {
+        Ok(ts) if ts.len() == 2 => ts[1].2,
+        _ => usize::MAX,
+      };
+      let model_end = if left == 0 { len } else { len - left + 1 };
+      if first_end != model_end {
+        rep.disagree(Kind::ImplVsModel, "gap", "read_input skips differently from GapLayout.skipGap", &format!("{:?}", text), &format!("first token ends at {}", first_end), &format!("first token ends at {}", model_end));
+      }
+      if first_end != len {
+        let sig = if *n_comments >= 2 { SIG_TWO_COMMENTS } else { "layout: white space and a comment before a token are not skipped" };
+        rep.disagree(Kind::ImplVsSpec, "gap", sig, &format!("{:?}", text), &format!("first token ends at {}", first_end), &format!("the name `a` ending at {}", len));
+      }
+    }
+  }
+
+  // ---------------------------------------------------------------- escapes
+  let mut cps: Vec<u32> = vec![
+    0x1F64F, 0x0, 0x1, 0x9, 0xA, 0xD, 0x20, 0x22, 0x27, 0x5C, 0x7E, 0x7F, 0x80, 0x81, 0xBF, 0xC0, 0xFF, 0x100, 0x3FF, 0x400, 0x7FE, 0x7FF, 0x800, 0x801, 0xFFF, 0x1000, 0x203F, 0x2040, 0x20AC, 0xCFFF,
+    0xD000, 0xD7FE, 0xD7FF, 0xE000, 0xE001, 0xFEFF, 0xFFFD, 0xFFFE, 0xFFFF, 0x10000, 0x10001, 0x1003F, 0x10040, 0x1007F, 0x10080, 0x103FF, 0x10400, 0x1F600, 0x1F63F, 0x1F640, 0x1F64F, 0x1FFFF,
+    0x20000, 0x3FFFF, 0x40000, 0xFFFFF, 0x100000, 0x10FC00, 0x10FFBF, 0x10FFC0, 0x10FFFE, 0x10FFFF,
+  ];
+  let n_sample = if thorough { 60_000 } else { 3_000 };
+  for i in 0..n_sample {
+    // strata: 1, 2, 3 and 4 byte ranges and the supplementary planes
+    let c = match i % 6 {
+      0 => rng.below(0x80),
+      1 => 0x80 + rng.below(0x780),
+      2 => 0x800 + rng.below(0xD000),
+      3 => 0xE000 + rng.below(0x2000),
+      4 => 0x10000 + rng.below(0x10000),
+      _ => 0x10000 + rng.below(0x100000),
+    } as u32;
+    cps.push(c);
+  }
+  let mut ereqs = vec![];
+  let mut ecases: Vec<(u32, &'static str)> = vec![];
+  for c in &cps {
+    for form in ["u4", "u6", "sur"] {
+      let applicable = match form {
+        "u4" => *c < 0x10000,
+        "sur" => *c >= 0x10000,
+        _ => true,
+      };
+      if applicable && char::from_u32(*c).is_some() {
+        ereqs.push(format!("(c06 esc {} {})", form, c));
+        ecases.push((*c, form));
+      }
+    }
+  }
+  let eanswers = model.ask_batch(&ereqs);
+  for (((c, form), req), ans) in ecases.iter().zip(ereqs.iter()).zip(eanswers.iter()) {
+    let parsed = Sexp::parse(ans);
+    let l = parsed.as_ref().and_then(|s| s.as_list());
+    let got = l.and_then(|l| {
+      let r = l.get(1)?.as_list()?;
+      let m = match r.first()?.as_atom()? {
+        "ok" => Some(r.get(1)?.as_atom()?.parse::<u32>().ok()?),
+        _ => None,
+      };
+      let ds: Option<Vec<u64>> = l[2..].iter().map(|d| d.as_atom().and_then(|a| a.parse().ok())).collect();
+      Some((m, ds?))
+    });
+    let (m, digits) = match got {
+      Some(x) => x,
+      None => {
+        rep.disagree(Kind::ImplVsModel, "escape", "driver-error", req, "", ans);
+        continue;
+      }
+    };
+    let ch = char::from_u32(*c).unwrap();
+    for upper in [false, true] {
+      let text = escape_text(form, &digits, upper);
+      rep.case(&text, *c >= 0x80);
+      rep.hit(&format!("escape:{}", form));
+      let im = run_impl(&text);
+      let denoted: Option<u32> = match &im {
+        Ok(AstNode::String(s)) if s.chars().count() == 1 => Some(s.chars().next().unwrap() as u32),
+        _ => None,
+      };
+      if denoted != m {
+        rep.disagree(Kind::ImplVsModel, "escape", &format!("escape {}: the lexer differs from the model of consume_unicode", form), &text, &show(&im), &format!("{:?}", m));
+      }
+      if im != Ok(AstNode::String(ch.to_string())) {
+        let sig = match *form {
+          "sur" => SIG_SURROGATE.to_string(),
+          f => format!("escape {} does not denote its code point", f),
+        };
+        rep.disagree(Kind::ImplVsSpec, "escape", &sig, &format!("{} (U+{:04X})", text, c), &show(&im), &format!("String({:?})", ch.to_string()));
+      }
+      if rep.samples.len() < 9 && *c > 0xFFFF && upper {
+        rep.sample(json!({"request": req, "text": text, "implementation": show(&im), "model": ans}));
+      }
+    }
+  }
+  // the simple escapes and raw characters
+  for (text, want) in [("\"\\n\"", "\n"), ("\"\\r\"", "\r"), ("\"\\t\"", "\t"), ("\"\\\"\"", "\""), ("\"\\'\"", "'"), ("\"\\\\\"", "\\"), ("\"\u{1F64F}\"", "\u{1F64F}"), ("\"€\"", "€")] {
+    rep.case(text, true);
+    rep.hit("escape:simple");
+    let im = run_impl(text);
+    if im != Ok(AstNode::String(want.to_string())) {
+      rep.disagree(Kind::ImplVsSpec, "escape", "simple escape does not denote its character", text, &show(&im), &format!("String({:?})", want));
+    }
+  }
+  // malformed: the lexer must refuse (compared with the model only)
+  for (text, v, next) in [("\"\\uD800\"", 0xD800u32, None), ("\"\\uDC00\"", 0xDC00, None), ("\"\\uD800\\u0041\"", 0xD800, Some(0x41u32)), ("\"\\U110000\"", 0x110000, None)] {
+    rep.case(text, true);
+    rep.hit("escape:malformed");
+    let im = run_impl(text);
+    let _ = (v, next);
+    if im.is_ok() {
+      rep.disagree(Kind::ImplVsModel, "escape", "malformed escape accepted", text, &show(&im), "a lexer error");
+    }
+  }
+
+  // ---------------------------------------------------------------- the whole expression language
+  let n_ext = if thorough { 120_000 } else { 6_000 };
+  let mut ext_rng = rng.fork();
+  let mut constructs: std::collections::BTreeMap<String, u64> = Default::default();
+  let path3 = || AstNode::Path(Box::new(AstNode::Path(Box::new(name_ast(0)), Box::new(name_ast(1)))), Box::new(name_ast(2)));
+  let num = |k: u32| AstNode::Numeric(k.to_string(), String::new());
+  let ext_corpus: Vec<AstNode> = vec![
+    // [ a . b . c ]  and  ( a . b . c + 1 ) * 2   — F22
+    AstNode::List(vec![path3()]),
+    AstNode::Mul(Box::new(AstNode::Add(Box::new(path3()), Box::new(num(1)))), Box::new(num(2))),
+    // a instance of number and b  — F23
+    AstNode::And(Box::new(AstNode::InstanceOf(Box::new(name_ast(0)), Box::new(AstNode::FeelType(FeelType::Number)))), Box::new(name_ast(1))),
+    AstNode::Add(Box::new(AstNode::InstanceOf(Box::new(name_ast(0)), Box::new(AstNode::FeelType(FeelType::String)))), Box::new(num(1))),
+    // a between ( if b and c then 1 else 2 ) and 3  — F19 through an `if`
+    AstNode::Between(
+      Box::new(name_ast(0)),
+      Box::new(AstNode::If(Box::new(AstNode::And(Box::new(name_ast(1)), Box::new(name_ast(2)))), Box::new(num(1)), Box::new(num(2)))),
+      Box::new(num(3)),
+    ),
+    // a instance of number = b  (a delimiter follows the type name: fine)
+    AstNode::Eq(Box::new(AstNode::InstanceOf(Box::new(name_ast(0)), Box::new(AstNode::FeelType(FeelType::Number)))), Box::new(name_ast(1))),
+  ];
+  let n_corpus = ext_corpus.len();
+  let mut ext_corpus = ext_corpus.into_iter();
+  for i in 0..(n_ext + n_corpus) {
+    let depth = 1 + (i as u32 % if thorough { 6 } else { 4 });
+    let t = match ext_corpus.next() {
+      Some(t) => t,
+      None => random_ext(&mut ext_rng, depth, 0),
+    };
+    walk(&t, &mut |x| {
+      *constructs.entry(node_name(x)).or_insert(0) += 1;
+    });
+    for full in [true, false] {
+      let p = Printer { lv: &levels, full };
+      let marked = p.pr(&t);
+      let text = marked.replace('\u{1}', "");
+      let mode = if full { "full" } else { "minimal" };
+      rep.case(&text, true);
+      rep.hit(&format!("extended:{}", mode));
+      let im = run_impl(&text);
+      if im.as_ref().ok() != Some(&t) {
+        let tt = text_tokens(&marked);
+        let sig = if ext_between_unsafe(&t) {
+          SIG_BETWEEN.to_string()
+        } else if text_path_quirk(&tt) {
+          SIG_PATH3.to_string()
+        } else if text_builtin_tail(&tt) {
+          SIG_BUILTIN.to_string()
+        } else {
+          format!("parse(print_{} t) differs from t (whole expression language, harness printer)", mode)
+        };
+        rep.disagree(Kind::ImplVsSpec, "extended", &sig, &text, &show(&im), &short(&format!("{:?}", t)));
+      }
+      if rep.samples.len() < 12 && depth >= 3 && !full {
+        rep.sample(json!({"text": text, "implementation": show(&im)}));
+      }
+    }
+  }
+  // unary tests
+  for i in 0..(n_ext / 10) {
+    let n = 1 + ext_rng.below(3);
+    let items: Vec<AstNode> = (0..n).map(|_| if ext_rng.chance(1, 2) { range_or_test(&mut ext_rng) } else { random_ext(&mut ext_rng, 1 + (i as u32 % 3), 0) }).collect();
+    let t = match ext_rng.below(8) {
+      0 => AstNode::Irrelevant,
+      1 | 2 => AstNode::NegatedList(items),
+      _ => AstNode::ExpressionList(items),
+    };
+    for full in [true, false] {
+      let p = Printer { lv: &levels, full };
+      let marked = p.pr(&t);
+      let text = marked.replace('\u{1}', "");
+      rep.case(&text, true);
+      rep.hit("extended:unary-tests");
+      let im = run_impl_ut(&text);
+      if im.as_ref().ok() != Some(&t) {
+        let tt = text_tokens(&marked);
+        let sig = if ext_between_unsafe(&t) {
+          SIG_BETWEEN.to_string()
+        } else if text_path_quirk(&tt) {
+          SIG_PATH3.to_string()
+        } else if text_builtin_tail(&tt) {
+          SIG_BUILTIN.to_string()
+        } else {
+          "parse_unary_tests(print t) differs from t".to_string()
+        };
+        rep.disagree(Kind::ImplVsSpec, "extended", &sig, &text, &show(&im), &short(&format!("{:?}", t)));
+      }
+    }
+  }
+  rep.extra.insert("extended_constructs".into(), json!(constructs));
+  rep.model_requests = model.requests;
+  rep.exhaustive = true;
+  rep.notes.push("operator pairs are enumerated completely in both tiers; triples completely in the thorough tier".into());
+  rep
+}
+
+fn probe() -> ! {
+  use std::io::BufRead;
+  let stdin = std::io::stdin();
+  for line in stdin.lock().lines() {
+    let line = line.unwrap();
+    let line = line.replace("\\n", "\n");
+    let r = if let Some(rest) = line.strip_prefix("UT:") { run_impl_ut(rest) } else { run_impl(&line) };
+    println!("{:40} => {}", line, show(&r));
+  }
+  std::process::exit(0);
 }
